@@ -300,3 +300,20 @@ def raw_case_term(case, obs):
         except ValueError:
             continue
     return (f"(mkRCase {bs} {mx} {raw_op_term(case['op'])} {g_bool(ordered)} {g_list(texts)} ({log}, {outcome}))")
+
+
+def events_term(case, obs):
+    """The events recorded at mopidy.listener.send as a list of Spec.event."""
+    it = Interner()
+    out = []
+    for name, kw in obs.get("events") or []:
+        pl = kw.get("playlist")
+        if name == "playlist_changed" and pl and pl[0] == "val" and pl[1] == "playlist":
+            out.append(f"(EvPlaylistChanged {g_z(pl[2])})")
+        elif name == "playlist_deleted" and kw.get("uri", [None])[0] == "str":
+            out.append(f"(EvPlaylistDeleted {it.uri(kw['uri'][1])})")
+        elif name == "playlists_loaded" and not kw:
+            out.append("EvPlaylistsLoaded")
+        else:
+            out.append("EvOther")
+    return g_list(out)
